@@ -117,12 +117,14 @@ ValOK(o) == o = None \/ Printable(o[1])
 DictOK(d) == DKeysDistinct(d) /\ \A i \in 1..Len(d) : KeyOK(d[i].k) /\ ValOK(d[i].v)
 
 \* --- Cache-Control typed directives
-Truthy(tv) == tv.tg = "true" \/ (tv.tg = "int" /\ tv.n # 0) \/ (tv.tg = "str" /\ tv.s # <<>>)
+\* Python truth of an assigned value: True, non-zero int / float, non-empty str; False, None, 0, 0.0, "", [] are falsy
+Truthy(tv) == tv.tg = "true" \/ (tv.tg \in {"int", "float"} /\ tv.n # 0) \/ (tv.tg = "str" /\ tv.s # <<>>)
 CCKnown(tag) == tag \in DOMAIN CCDir
 \* result: R(dict, exc); exc "ood" = outside the modelled input domain
 CCSet(tag, tv, d) ==
   LET dir == CCDir[tag] k == dir.key IN
   IF dir.ty = "bool" THEN R(IF Truthy(tv) THEN DPut(d, k, None) ELSE DDel(d, k), "")
+  ELSE IF tv.tg \in {"float", "elist"} THEN R(d, "ood")        \* only modelled on boolean directives
   ELSE IF tv.tg \in {"none", "false"} THEN R(DDel(d, k), "")
   ELSE IF tv.tg = "true" THEN R(DPut(d, k, None), "")
   ELSE IF dir.ty = "int" THEN
@@ -240,6 +242,21 @@ AliasApply(k, op, a, v) ==
     [] op = "alias_params" /\ k = "wa" -> R([v EXCEPT !.ps = IF a.tag = "mut" THEN DPut(v.ps, a.x, a.y) ELSE v.ps], "")
     [] op = "params_ior" /\ k = "wa" -> R([v EXCEPT !.ps = DUpdate(v.ps, a.ps)], "")
     [] OTHER -> R(v, "ood")
+
+\* ------------------------------------------------------------------ steps that (re)assert the view
+\* A step that stores / assigns something -- as opposed to "remove if present", "insert if absent" -- asserts the view's
+\* state even when the stored value equals the one it replaces: afterwards the header equals the view's serialisation,
+\* also when the header had been changed behind the view (direct edit, assignment, another view).  v2 = value after.
+Reasserts(k, op, a, v2) ==
+  CASE k = "cr"  -> TRUE
+    [] k = "set" -> op \in {"clear", "setitem", "setitem_self"}
+    [] k \in {"cc", "csp", "mtp"} ->
+         \/ op \in {"setitem", "item_self", "update", "update_self", "ior", "ior_self", "clear"}
+         \/ (op \in {"cc_set", "cc_self"} /\ k = "cc" /\ CCKnown(a.tag) /\ DHas(v2, CCDir[a.tag].key))
+         \/ (op \in {"csp_set", "csp_self"} /\ k = "csp" /\ CSPKnown(a.tag) /\ DHas(v2, CSPDir[a.tag]))
+    [] k = "wa"  -> op \in {"set_type", "type_self", "set_token", "token_self", "set_params", "alias_params", "params_ior",
+                            "setitem", "setattr", "p_setitem", "p_update", "p_ior", "p_clear"}
+    [] OTHER -> FALSE
 
 \* ------------------------------------------------------------------ per kind dispatch
 SetKinds == {"set"}
